@@ -2,7 +2,7 @@
 
    run_pipe / run_http : M_Wire, the models C01 ties to the code (socket family / HTTP for every cap and frame size).
    life model          : M_WireLife -- a script is a LIST OF OPERATIONS on one session (OIter k / OResume / OExch /
-                         OClose / OCancel); pstep / hstep return, per operation, the client events and the state hooks
+                         OClose / OCancel / OCancelF d / ONext); pstep / hstep return, per operation, the client events and the state hooks
                          (CProcess i / CCancel i) the server ran.  hstep true = the repaired HttpStreamSession.
    emitted sts         : the batches a producer step script emits, in order, and how it ends (finish / error).
    Side conditions: a recording on_log callback and no EXCEPTION-level client logs (no_exc_logs; C08's subject), init
@@ -93,9 +93,9 @@ Proof. exact header_once_first. Qed.
 (* socket family.  For ANY callback, any state st0 of an open session, any operations before (pre) and after (post)
    the cancel:  the state is never processed again / on_cancel ran at most once in the whole run / cancel() reports no
    error / every later operation is refused (no dispatch, no data, RpcError for a use) *)
-Theorem C10_after_cancel : forall producer c st0 pre post segs1 st1 sgc st2 segs2 st3,
-  p_closed st0 = false ->
-  run_ops (pstep producer c) pre st0 = (segs1, st1) -> pstep producer c OCancel st1 = (sgc, st2) ->
+Theorem C10_after_cancel : forall producer c oc st0 pre post segs1 st1 sgc st2 segs2 st3,
+  p_closed st0 = false -> is_cancel_op oc = true ->
+  run_ops (pstep producer c) pre st0 = (segs1, st1) -> pstep producer c oc st1 = (sgc, st2) ->
   run_ops (pstep producer c) post st2 = (segs2, st3) ->
   processes (snd sgc ++ all_calls segs2) = []
   /\ (cancels (all_calls segs1 ++ snd sgc ++ all_calls segs2) <= 1)%nat
@@ -103,10 +103,12 @@ Theorem C10_after_cancel : forall producer c st0 pre post segs1 st1 sgc st2 segs
   /\ Forall2 refusal post segs2.
 Proof. exact after_cancel_pipe. Qed.
 
-(* HTTP, repaired client (fixed = true), every cap / program / callback *)
-Theorem C10_after_cancel_http : forall cfg sts c st0 pre post segs1 st1 sgc st2 segs2 st3,
-  hK st0 = false ->
-  run_ops (hstep true cfg sts c) pre st0 = (segs1, st1) -> hstep true cfg sts c OCancel st1 = (sgc, st2) ->
+(* HTTP, repaired client (fixed = true), every cap / program / callback.  The cancel oc is OCancel or OCancelF d: a cancel
+   whose POST fails in the client, the request delivered to the server (d = true: on_cancel ran, the reply was lost) or
+   not; pre and post may contain further (failing) cancels and next_with_token() calls (ONext) *)
+Theorem C10_after_cancel_http : forall cfg sts c oc st0 pre post segs1 st1 sgc st2 segs2 st3,
+  hK st0 = false -> is_cancel_op oc = true ->
+  run_ops (hstep true cfg sts c) pre st0 = (segs1, st1) -> hstep true cfg sts c oc st1 = (sgc, st2) ->
   run_ops (hstep true cfg sts c) post st2 = (segs2, st3) ->
   processes (snd sgc ++ all_calls segs2) = []
   /\ (cancels (all_calls segs1 ++ snd sgc ++ all_calls segs2) <= 1)%nat
@@ -167,6 +169,15 @@ Example C10_ex_after_cancel_http :
   = ([ELog (xlog DEBUG "i"); ELog (xlog INFO "s"); EHeader 7%Z], [CProcess 0],
      [([EBatch (xb 2 0); ELog (xlog INFO "s"); EBatch (xb 0 0)], [CProcess 1]); ([], [CCancel 1]); ([refused], []); ([refused], []); ([], [])]).
 Proof. vm_compute. reflexivity. Qed.
+
+(* a cancel whose reply is lost (the server ran on_cancel), then cancel again, next_with_token, iterate: one CCancel, no
+   CProcess, every use refused -- and the same when the request never got out *)
+Example C10_ex_cancel_fault_http :
+  snd (life_http true (xcfg None) xsp false true CbRecord [ONext; OCancelF true; OCancel; ONext; OIter None; OCancelF true])
+  = [([EBatch (xb 2 0)], []); ([], [CCancel 1]); ([], []); ([EDone], []); ([refused], []); ([], [])]
+  /\ snd (life_http true (xcfg None) xsp false true CbRecord [ONext; ONext; OCancelF false; ONext; OCancel])
+  = [([EBatch (xb 2 0)], []); ([ELog (xlog INFO "s"); EBatch (xb 0 0)], [CProcess 1]); ([], []); ([EDone], []); ([], [])].
+Proof. vm_compute. split; reflexivity. Qed.
 
 (* coercion over a toy domain: types are numbers, a cast succeeds iff the source type is smaller or equal *)
 Definition toy_cast (t s0 : N) (c : N) : option N := if s0 <=? t then Some (c + 1000 * t) else None.
